@@ -5,6 +5,7 @@ import (
 	"fmt"
 	"math/big"
 	"reflect"
+	"regexp"
 
 	"github.com/kstenerud/go-concise-encoding/ce"
 	"github.com/kstenerud/go-concise-encoding/ce/events"
@@ -182,6 +183,15 @@ func genInvalid(ctx *Ctx, idx int, err interface{}, evs []ev.Event) error {
 }
 
 func findingOpen(key string) bool { return harness.Open(key) }
+
+var hugeHexExponentRE = regexp.MustCompile(`0[xX][0-9a-fA-F_.]*[pP][+-]?[0-9_]{5,}`)
+
+// hugeHexExponent: the text contains a hexadecimal float with a binary exponent of five or more digits
+// (the region of the open finding S75: decimal conversion / error formatting of such a big.Float takes
+// time quadratic in the exponent).
+func hugeHexExponent(doc []byte) bool { return hugeHexExponentRE.Match(doc) }
+
+const s75 = "S75-big-float-extreme-exponent"
 
 func ratOfAny(v interface{}) (*big.Rat, bool) {
 	rv := reflect.ValueOf(v)
